@@ -390,6 +390,15 @@ theorem welch_antisymmetric (m v n m' v' n' : Val) :
 
 /-! ### overlap variant -/
 
+/-- **overlap_def**: for two different subvariables the overlap-corrected statistic is
+    (p_b − p_a)/sqrt((1/df)(π_a(1−π_a) + π_b(1−π_b) + 2π_aπ_b − 2π_ab)) with df = N_a + N_b − N_ab,
+    π = selected / valid overlap bases, and p a Student-t tail with df − 2 degrees of freedom -/
+theorem overlap_def (x : OvIn) (i a b : Nat) (hab : a ≠ b) :
+    x.t i a b = .divSqrt (x.props.get i b - x.props.get i a) (x.den i a b)
+    ∧ x.p i a b = .tTail2 (x.t i a b) (x.df i a b - 2) := by
+  unfold OvIn.p OvIn.t
+  simp [hab]
+
 /-- **overlap_self_zero**: a subvariable against itself gives t = 0 -/
 theorem overlap_self_zero (x : OvIn) (i a : Nat) : x.t i a a = .v (.fin 0) := by
   unfold OvIn.t; rw [if_pos rfl]
